@@ -14,6 +14,7 @@ LEVEL = 'exploration'
 TECHNIQUE = 'property-based testing (Hypothesis), metamorphic: paired run_mapping runs under (a) raw vs. harness-computed log2(CPM+1), (b) per-cell positive scaling, (c) gene-column permutation (bitwise), (d) extra/removed non-marker genes on normalised input (bitwise), (e) a negative raw value must be rejected'
 RULE = ('cases = generated mapping inputs x relation a-e; factor 1 for (a),(b) (tolerance + near-tie skip), any factor for the bitwise relations (c),(d); '
         'non-trivial = the transformation is not the identity and touches at least one marker gene column position (a,b,c: always when >=1 marker column moves / values change; d: genes added or removed; e: always); distinct = distinct spec hash')
+RULE += '; additions: negative values down to -1e-30, dense re-chunked layouts, extra-genes variant with 1-3 cells and 240-300 almost empty new genes'
 ASSUMPTIONS = ['raw counts are integer valued so that row sums are exact in any column order',
                'scale factors range from 1e-12 to 1e9 (so that cell totals far below 1 and far above 1e6 occur), applied in float64']
 
